@@ -11,7 +11,8 @@ CONSTANTS
   MaxArr = 80
   MaxT = 3
   REPS = {1, 5, 7, 26}
+  Garbage = FALSE
   Staged = TRUE
   PsFree = TRUE
   InitSets = {{"p1", "p2"}, {"p1", "p2", "p3"}}
-INVARIANTS InvAtMostOne InvIsLatest InvValidUnexpiredMember InvNoFalseAlarm InvAlertOnce InvReported InvForgotten InvObserverSane
+INVARIANTS InvAtMostOne InvIsLatest InvValidUnexpiredMember InvNoFalseAlarm InvAlertOnce InvReported InvForgotten InvUsed InvObserverSane
